@@ -18,7 +18,7 @@ SYNTAX = {'css': (': ', ';'), 'scss': (': ', ';'), 'sass': (': ', ''), 'less': (
 USER = {'pos': 'float:left|right', 'zzq': 'zoom:2|3', 'zzr': 'hello ${1:w} ${2}', 'c': 'cursor:help|move', 'ovh': 'overflow:hidden',
         'mTq': 'margin-top:auto|0', 'Zq': 'z-index:1|2',
         # first alternative of several tokens / a function call with arguments
-        'zzs': 'a {\n${1}\n}', 'mxq': 'margin:0 auto|0', 'fnq': 'transform:rotate(10deg, 2) x|none', 'bdq': 'border:1px solid #f00|0'}          # keys are matched without regard to letter case
+        'zzs': 'a {\n${1}\n}', 'tsq': 'text-shadow:${1:h}${2:v} ${3:#000}', 'mxq': 'margin:0 auto|0', 'fnq': 'transform:rotate(10deg, 2) x|none', 'bdq': 'border:1px solid #f00|0'}          # keys are matched without regard to letter case
 FIELD = re.compile(r'\$\{(\d+)(?::([^}]*))?\}')
 
 
@@ -87,6 +87,10 @@ def _chunk(items):
                             ok = False                                   # several alternatives: the first one is offered in a tabstop
                         if ok:
                             ok = _norm(_strip_fields(val)) == _norm(v['first'])
+                        if ok and marking and '${' in v['firstraw'] and '(' not in v['firstraw']:
+                            # the first alternative is written with tabstops of its own: they come out where they were written
+                            # (next to each other, next to a word, separated by a blank) - compared with the field numbers removed
+                            ok = _norm(FIELD.sub(lambda m: '${:%s}' % (m.group(2) or ''), val)) == _norm(FIELD.sub(lambda m: '${:%s}' % (m.group(2) or ''), v['firstraw']))
                     if not ok:
                         bad.append(('own-key', dict(case, expected=head + v['first'] + after, actual=got)))
                 else:
@@ -134,6 +138,17 @@ def _chunk(items):
                     except Exception as e:
                         bad.append(('expand raised', dict(case, scope=True, exception=type(e).__name__)))
                         continue
+                    # the scope holds for every property of a list: the same key twice gives the same line twice
+                    if re.fullmatch(r'[A-Za-z@:-]+', key):
+                        try:
+                            scope = {'context': {'name': '@@property' if v['kind'] == 'prop' else '@@section'}}
+                            twice = ex(key + '+' + key, scope)
+                            one = prp if v['kind'] == 'prop' else sec
+                            n += 1
+                            if _strip_fields(twice) != _strip_fields(one) + '\n' + _strip_fields(one):
+                                bad.append(('scope', dict(case, abbr=key + '+' + key, scope=scope['context']['name'], expected=one + '\n' + one, actual=twice)))
+                        except Exception as e:
+                            bad.append(('expand raised', dict(case, scope=True, abbr=key + '+' + key, exception=type(e).__name__)))
                     if v['kind'] == 'prop':
                         if sec.startswith(v['prop'] + between):
                             bad.append(('scope', dict(case, scope='@@section', actual=sec, why='a property snippet matched in section scope')))
